@@ -1,4 +1,4 @@
-package c07
+package c07node
 
 // Node variant: the same key sets listed through the queue messages served by blockchain/localdb.go
 // (EventLocalNew / Set / Begin / Get / List / PrefixCount / Close) of one running in-process node.
@@ -6,20 +6,21 @@ package c07
 // layer 1 = LocalSet before LocalBegin, layer 0 = LocalSet after LocalBegin.
 
 import (
+	"os"
 	"strings"
 	"sync"
 	"testing"
 
 	"github.com/33cn/chain33/client"
+	clog "github.com/33cn/chain33/common/log"
 	"github.com/33cn/chain33/queue"
 	_ "github.com/33cn/chain33/system"
 	"github.com/33cn/chain33/types"
 	"github.com/33cn/chain33/util/testnode"
 	"pgregory.net/rapid"
+	c07 "verifharness/c07_list"
 	"verifharness/lib"
 )
-
-const nodeNS = "c07~"
 
 var (
 	nodeOnce sync.Once
@@ -36,10 +37,14 @@ func theNode() *testnode.Chain33Mock {
 	return node
 }
 
-func closeNode() {
+func TestMain(m *testing.M) {
+	clog.SetLogLevel("crit")
+	code := m.Run()
 	if node != nil {
 		node.Close()
 	}
+	lib.Flush()
+	os.Exit(code)
 }
 
 // transport problems (queue timeouts on a loaded machine) are not verdicts
@@ -86,10 +91,10 @@ func TestPropNodeLocalDB(t *testing.T) {
 	n := theNode()
 	api, base := n.GetAPI(), n.GetBlockChain().GetDB()
 	rapid.Check(t, func(t *rapid.T) {
-		c := genCase(t, []string{"node"}, nodeNS)
+		c := c07.GenCase(t, []string{"node"}, c07.NodeNS)
 		lib.Eval()
 		fail := func(format string, a ...interface{}) {
-			lib.Violation(t, prop, "TestPropNodeLocalDB", c.render(), format, a...)
+			lib.Violation(t, c07.Prop, "TestPropNodeLocalDB", c.Render(), format, a...)
 		}
 		// reset: nothing of an earlier case may be left in the shared base database
 		it := base.Iterator([]byte("c07"), nil, false)
@@ -102,16 +107,16 @@ func TestPropNodeLocalDB(t *testing.T) {
 		defer func() {
 			for _, e := range c.Entries {
 				if e.Layer == 2 {
-					_ = base.Delete(clone(e.K))
+					_ = base.Delete(c07.Clone(e.K))
 				}
 			}
 		}()
 		var kvs [3][]*types.KeyValue
 		for _, e := range c.Entries {
-			kvs[e.Layer] = append(kvs[e.Layer], &types.KeyValue{Key: clone(e.K), Value: e.value()})
+			kvs[e.Layer] = append(kvs[e.Layer], &types.KeyValue{Key: c07.Clone(e.K), Value: e.Value()})
 		}
 		for _, kv := range kvs[2] {
-			mustSet(base.Set(kv.Key, kv.Value))
+			c07.MustSet(base.Set(kv.Key, kv.Value))
 		}
 		id, err := api.LocalNew(false)
 		transport(err)
@@ -129,7 +134,7 @@ func TestPropNodeLocalDB(t *testing.T) {
 		var warm [][]byte
 		for _, e := range c.Entries {
 			if e.Layer == 2 && len(e.K)%2 == 0 {
-				warm = append(warm, clone(e.K))
+				warm = append(warm, c07.Clone(e.K))
 			}
 		}
 		if len(warm) > 0 {
@@ -140,7 +145,7 @@ func TestPropNodeLocalDB(t *testing.T) {
 		step("LocalSet (in transaction)", api.LocalSet(&types.LocalDBSet{Txid: id.Data, KV: kvs[0]}))
 
 		// merged view of the transaction
-		res := checkLists(c, nodeView{api, n.GetClient(), id.Data}, fail)
+		res := c07.CheckLists(c, nodeView{api, n.GetClient(), id.Data}, fail)
 		// base-only view (Txid 0) and the base prefix count
 		b := c
 		b.Entries = nil
@@ -149,15 +154,15 @@ func TestPropNodeLocalDB(t *testing.T) {
 				b.Entries = append(b.Entries, e)
 			}
 		}
-		resBase := checkView(b, nodeView{api, n.GetClient(), 0}, func(format string, a ...interface{}) {
+		resBase := c07.CheckView(b, nodeView{api, n.GetClient(), 0}, func(format string, a ...interface{}) {
 			fail("base view (Txid 0): "+format, a...)
 		})
-		res.listings += resBase.listings
-		res.pages += resBase.pages
-		res.seeks += resBase.seeks
-		classify(c, res)
-		if res.boundaryNT {
-			lib.NonTrivialCase(c.render())
+		res.Listings += resBase.Listings
+		res.Pages += resBase.Pages
+		res.Seeks += resBase.Seeks
+		c07.Classify(c, res)
+		if res.BoundaryNT {
+			lib.NonTrivialCase(c.Render())
 		}
 	})
 }
